@@ -571,15 +571,16 @@ theorem goodSites_eq : goodSites =
      .futureTransform, .getBinding] := by decide
 
 theorem aliasableSites_eq : aliasableSites =
-    [.marshaller, .unmarshaller, .codec, .typeContext, .typingGenericCache, .inspectPredicate, .inspectUnwrap,
+    [.marshaller, .unmarshaller, .codec, .staticOrder, .typeContext, .typingGenericCache, .inspectPredicate, .inspectUnwrap,
      .resolveModuleName] := by
   decide
 
-/-- the three sites that hand out a cached mutable object are not reached by an operation of the
-    property: `_strload` (behind `strload`), `static_order` and `cached_type_hints` (read by the
+/-- the two sites that hand out a cached mutable object are not reached by an operation of the
+    property: `_strload` (behind `strload`) and `cached_type_hints` (`static_order` handed out its memoised list
+    until dd76572; its memo is an immutable tuple now) (read by the
     routines only; the harness checks that they are not mutated by their callers) -/
 theorem shared_mutable_sites_are_internal :
-    RealSite.all.filter (fun s => !(classify s).freshOrImmutable) = [.strloadRaw, .staticOrder, .cachedTypeHints] ∧
+    RealSite.all.filter (fun s => !(classify s).freshOrImmutable) = [.strloadRaw, .cachedTypeHints] ∧
     ∀ s ∈ RealSite.all, (classify s).freshOrImmutable = false → (classify s).«public» = false := by
   decide
 
